@@ -12,3 +12,14 @@ func TestKF_LRangeNegativeStart(t *testing.T) {
 	}()
 	l.LRange("k", -1, 0)
 }
+
+func TestKF_LRemMinInt(t *testing.T) {
+	l := New()
+	l.RPush("k", []byte("a"), []byte("b"))
+	defer func() {
+		if r := recover(); r != nil {
+			t.Errorf("REPRODUCED: LRem(k, MinInt64, a) panics: %v", r)
+		}
+	}()
+	l.LRem("k", -9223372036854775808, []byte("a"))
+}
